@@ -144,8 +144,11 @@ pub struct Transport {
     /// The single in-flight mDNS commissionable-browse rendezvous, shared between
     /// [`Transport::browse_commissionable`] callers and the running mDNS responder.
     mdns_browse: Signal<MdnsBrowseState>,
-    /// A notification that a session had been removed
-    session_removed: Notification,
+    /// A generation counter that is bumped every time a session is removed.
+    ///
+    /// Not a `Notification`: that one hands a notification to a *single* waiter, while every
+    /// exchange that is waiting in `recv` / `wait_tx` has to learn that a session is gone.
+    session_removed: Signal<u32>,
     /// A notification that the groups have been modified.
     /// Unused without the `groups` feature, but kept unconditionally so the
     /// in-place `Transport` initializer needs no feature-specific variant.
@@ -180,7 +183,7 @@ impl Transport {
             mdns_changed: Notification::new(),
             mdns_resolve: Signal::new(MdnsResolveState::Idle),
             mdns_browse: Signal::new(MdnsBrowseState::Idle),
-            session_removed: Notification::new(),
+            session_removed: Signal::new(0),
             groups_modified: Notification::new(),
             resumption_dirty: Notification::new(),
             counters: Mutex::new(RefCell::new(MessageCounters::new())),
@@ -199,7 +202,7 @@ impl Transport {
             mdns_changed <- Notification::init(),
             mdns_resolve <- Signal::init(MdnsResolveState::Idle),
             mdns_browse <- Signal::init(MdnsBrowseState::Idle),
-            session_removed <- Notification::init(),
+            session_removed <- Signal::init(0),
             groups_modified <- Notification::init(),
             resumption_dirty <- Notification::init(),
             counters <- Mutex::init(RefCell::init(MessageCounters::new())),
@@ -274,12 +277,35 @@ impl Transport {
 
     /// Notify that a session has been removed.
     pub(crate) fn notify_session_removed(&self) {
-        self.session_removed.notify();
+        self.session_removed.modify(|generation| {
+            *generation = generation.wrapping_add(1);
+
+            (true, ())
+        });
     }
 
     /// Wait until a session has been removed (see [`Transport::notify_session_removed`]).
+    ///
+    /// Every waiter is woken: the returned future completes once the generation counter
+    /// differs from what it was when this method was called.
     pub(crate) fn wait_session_removed(&self) -> impl Future<Output = ()> + '_ {
-        self.session_removed.wait()
+        self.wait_session_removed_since(self.session_removed_generation())
+    }
+
+    /// The current value of the session-removal generation counter.
+    pub(crate) fn session_removed_generation(&self) -> u32 {
+        self.session_removed
+            .modify(|generation| (false, *generation))
+    }
+
+    /// Wait until a session has been removed after the generation counter had the value `seen`
+    /// (completes at once if that happened already).
+    pub(crate) fn wait_session_removed_since(&self, seen: u32) -> impl Future<Output = ()> + '_ {
+        async move {
+            self.session_removed
+                .wait(|generation| (*generation != seen).then_some(()))
+                .await
+        }
     }
 
     /// Notify that the CASE session resumption cache was mutated and
